@@ -498,12 +498,12 @@ def run(ctx):
         return _replay(ctx)
     # ---- 1. theorem + sensitivity
     if ctx.thorough:
-        theorem = [("AlphaQ1", 5), ("AlphaQ2", 5), ("AlphaT", 5), ("AlphaT2", 5)]
-        gens = [("AlphaT", 4), ("AlphaT2", 4), ("AlphaQ1", 5), ("AlphaQ2", 5)]
-        sample5, n_eml, n_msgfile = 60000, 6000, 1500
+        theorem = [("AlphaQ1", 5), ("AlphaQ2", 5), ("AlphaQ3", 7), ("AlphaT", 5), ("AlphaT2", 5)]
+        gens = [("AlphaT", 4, 0), ("AlphaT2", 4, 0), ("AlphaQ3", 6, 0), ("AlphaQ1", 5, 5), ("AlphaQ2", 5, 5)]
+        sample5, n_eml, n_msgfile = 40000, 5000, 1200
     else:
         theorem = [("AlphaQ1", 4), ("AlphaQ2", 4)]
-        gens = [("AlphaQ1", 4), ("AlphaQ2", 4)]
+        gens = [("AlphaQ1", 4, 0), ("AlphaQ2", 4, 0)]
         sample5, n_eml, n_msgfile = 0, 1200, 160
     _theorems(ctx, theorem)
     ctx.log(f"theorem + sensitivity runs done ({_t()}s)")
@@ -511,9 +511,9 @@ def run(ctx):
     # ---- 2. enumerate the token strings (with TLC's classification, used for evidence only)
     rng = random.Random(ctx.seed)
     strings = {}
-    for alpha, n in gens:
+    for alpha, n, sampled_len in gens:
         got = _enumerate(ctx, alpha, n)
-        if n >= 5:                                         # all strings up to 4, a seeded sample of the length-5 strings
+        if sampled_len:                                    # all strings up to 4, a seeded sample of the length-5 strings
             k5 = sorted(k for k, c in got.items() if len(k) == 5 and k not in strings and ("MUST" in c or "MUSTNOT" in c))
             for k in rng.sample(k5, min(sample5, len(k5))):
                 strings[k] = got[k]
@@ -531,7 +531,7 @@ def run(ctx):
     # which wrappers see which string: the cheap ones all, .eml / real .msg a seeded sample biased to non-trivial strings
     pool = nontriv if len(nontriv) > 50 else keys
     eml_set = set(rng.sample(pool, min(n_eml, len(pool))))
-    short = [k for k in pool if len(k) <= 5]
+    short = [k for k in pool if len(k) <= 6]
     msg_set = set(rng.sample(short, min(n_msgfile, len(short))))
     cases = []
     for k in keys:
@@ -570,7 +570,7 @@ def run(ctx):
                 "seeded sample through read_eml_format_mail and read_msg_format_mail; non-trivial = strings whose "
                 "classification (TLC) contains both a MUST and a MUSTNOT word",
            exhaustive=not ctx.thorough,
-           constants={"alphabets": [f"{a}<={n}" for a, n in gens], "strings_enumerated": n_all,
+           constants={"alphabets": [f"{a}<={n}" + (" (length 5 sampled)" if sl else "") for a, n, sl in gens], "strings_enumerated": n_all,
                       "strings_replayed": len(keys), "observations": by_w,
                       "msgfile_fixture_usable": msg_ok, "msgfile_skipped_too_long": msg_skipped})
     ev.assume("token strings are rendered in body context (lead word or explicit <body>); HTML5 head-context rules "
